@@ -244,6 +244,21 @@ def run(ck: Check):
                                        {"at": at + 1.0, "op": "append", "topic": "t1", "p": 1, "n": 3}],
                     "faults": {"apis": conssim.GROUP_APIS, "plan": {}}, "coordinator": 0, "max_vtime": 600.0,
                     "family": "pattern-new-topic"})
+    # a subscribed topic grows; only the leader (short metadata age) sees the new partition count before the rebalance
+    # it triggers, and the assignor hands the new partition to a follower whose metadata does not list it yet
+    for j, at in enumerate([1.0, 1.45, 2.0, 2.6]):
+        for asg in (["range"], ["roundrobin"]):
+            cons = [{"name": f"c{i}", "group": "g", "topics": ["t0"], "assignors": asg, "auto_commit": True,
+                     "auto_commit_interval_ms": 300, "cb_delay": 0.01, "metadata_max_age_ms": [100, 60000, 60000][i],
+                     "listener_kind": "async",
+                     "program": [["sleep", [0.0, 0.4, 0.5][i]], ["start"], ["consume", 9.0, 0.1, None, 0], ["stop"]]}
+                    for i in range(3 if j % 2 else 2)]
+            scs.append({"id": 650000 + 2 * j + (asg[0] == "range"), "seed": 650 + j, "brokers": 1, "topics": {"t0": 4},
+                        "preload": {"t0": {"0": 3, "1": 3, "2": 0, "3": 0}}, "consumers": cons,
+                        "cluster_events": [{"at": at, "op": "add_partitions", "topic": "t0", "n": [1, 2][j % 2]},
+                                           {"at": at + 2.0, "op": "append", "topic": "t0", "p": 4, "n": 3}],
+                        "faults": {"apis": conssim.GROUP_APIS, "plan": {}}, "coordinator": 0, "max_vtime": 600.0,
+                        "family": "topic-grows-leader-sees-first"})
     rng_old = random.Random(ck.seed * 7121 + 505)
     scs += [conssim.old_broker(conssim.gen_scenario(rng_old, 700000 + i), rng_old) for i in range(ck.n(18, 200))]
     results = conssim.run_scenarios(scs, timeout=ck.n(900, 3000))
